@@ -97,6 +97,66 @@ theorem referrers_subject (c : OciCfg) (st : OciSt) (n : Node) (l : List Node) (
   rw [referrers_eq] at h
   exact refFold_subject c st n _ l h
 
+/-- `referrers` misses nothing: every predecessor whose subject is `n` is listed (and is
+    stored — otherwise the listing fails). -/
+theorem refFold_complete (c : OciCfg) (st : OciSt) (n : Node) :
+    ∀ (ps : List Node) (l : List Node), ps.foldr (refStep c st n) (some []) = some l →
+      ∀ p ∈ ps, c.subject p = some n → p ∈ l ∧ p ∈ st.blobs := by
+  intro ps
+  induction ps with
+  | nil => intro l _ p hp; cases hp
+  | cons q qs ih =>
+    intro l h p hp hsub
+    simp only [List.foldr_cons] at h
+    cases hrec : qs.foldr (refStep c st n) (some []) with
+    | none => rw [hrec] at h; simp [refStep] at h
+    | some l' =>
+      rw [hrec] at h
+      have ih' := ih l' hrec
+      unfold refStep at h
+      simp only at h
+      cases hs : c.subject q with
+      | none =>
+        rw [hs] at h
+        simp only [Option.some.injEq] at h
+        subst h
+        rcases List.mem_cons.mp hp with e | e
+        · rw [e, hs] at hsub; cases hsub
+        · exact ih' p e hsub
+      | some s =>
+        rw [hs] at h
+        simp only at h
+        by_cases hb : q ∈ st.blobs
+        · simp only [hb, if_true] at h
+          by_cases he : s = n
+          · simp only [he, if_true, Option.some.injEq] at h
+            subst h
+            rcases List.mem_cons.mp hp with e | e
+            · rw [e]; exact ⟨List.mem_cons_self, hb⟩
+            · have := ih' p e hsub
+              exact ⟨List.mem_cons_of_mem _ this.1, this.2⟩
+          · simp only [he, if_false, Option.some.injEq] at h
+            subst h
+            rcases List.mem_cons.mp hp with e | e
+            · rw [e, hs] at hsub
+              injection hsub with hsub
+              exact absurd hsub he
+            · exact ih' p e hsub
+        · simp [hb] at h
+
+theorem referrers_complete (c : OciCfg) (st : OciSt) (n : Node) (l : List Node) (h : referrers c st n = some l) :
+    ∀ p ∈ st.graph.predecessors n, c.subject p = some n → p ∈ l ∧ p ∈ st.blobs := by
+  rw [referrers_eq] at h
+  exact refFold_complete c st n _ l h
+
+/-- `Remove` reports every successor that is left without a predecessor. -/
+theorem dangling_complete (g : GMem) (n d : Key) (hs : d ∈ g.succs n) (hn : g.nodes d = true)
+    (he : (g.remove n).1.preds d = []) : d ∈ (g.remove n).2 := by
+  unfold GMem.remove at he ⊢
+  simp only at he ⊢
+  simp only [List.mem_filter, Bool.and_eq_true, List.isEmpty_iff]
+  exact ⟨hs, he, hn⟩
+
 /-- Why a node is in the cascade: it is the target, a referrer of a processed node, or it
     has no predecessor in the graph. -/
 def Justified (c : OciCfg) (n0 : Node) (seen : List Node) (g : GMem) (d : Node) : Prop :=
